@@ -30,6 +30,9 @@ func setV(fv reflect.Value, kind string, v V) {
 		}
 		m := reflect.MakeMap(fv.Type())
 		for i := range v.L {
+			if i >= len(v.K) {
+				break // a value that was generated for another kind (possible while shrinking): ignore the surplus
+			}
 			k := reflect.New(fv.Type().Key()).Elem()
 			setV(k, mapKeyKind(kind), v.K[i])
 			e := reflect.New(fv.Type().Elem()).Elem()
